@@ -38,6 +38,8 @@ type Script struct {
 	Hook func(c Call)
 	// SignHook may wrap/replace signing.
 	Sign func(k *Key, digest []byte, opts crypto.SignerOpts) ([]byte, error)
+	// SignCtx, when set, answers SignContext and sees the context the caller passed.
+	SignCtx func(ctx context.Context, k *Key, digest []byte, opts crypto.SignerOpts) ([]byte, error)
 	// KeyID returned by GetID for a key name
 	KeyID map[string][]byte
 }
@@ -177,6 +179,10 @@ func (k *Key) Sign(r io.Reader, digest []byte, opts crypto.SignerOpts) ([]byte, 
 }
 
 func (k *Key) SignContext(ctx context.Context, digest []byte, opts crypto.SignerOpts) ([]byte, error) {
+	if S.SignCtx != nil {
+		S.record(Call{k.Tok, "sign", k.Name})
+		return S.SignCtx(ctx, k, digest, opts)
+	}
 	return k.Sign(rand.Reader, digest, opts)
 }
 
